@@ -262,6 +262,8 @@ pub fn cases(thorough: bool) -> Vec<Case> {
     v
 }
 
+pub static OUTCOMES: Mutex<std::collections::BTreeSet<String>> = Mutex::new(std::collections::BTreeSet::new());
+
 pub fn judge(t: &Tree, opts: &BOpts, tag: &str, sweep: &str, scratch: &Scratch) -> Vec<Violation> {
     let mut v = Vec::new();
     let src = scratch.fresh("src");
@@ -283,6 +285,21 @@ pub fn judge(t: &Tree, opts: &BOpts, tag: &str, sweep: &str, scratch: &Scratch) 
             format!("{tag}: {} {:?}", out.describe(), out.monitor_errors),
         ));
         return v;
+    }
+    if let Some(st) = out.ok_stats() {
+        // outcome class: which storage paths this input exercised
+        OUTCOMES.lock().unwrap().insert(format!(
+            "written_blocks={} combined_blocks={} dedup={} empty_files={} single_block={} multi_block={} small_combined={} symlinks={} dirs={}",
+            st.written_blocks.min(4),
+            st.combined_blocks.min(3),
+            st.deduplicated_blocks.min(2),
+            st.empty_files.min(1),
+            st.single_block_files.min(2),
+            st.multi_block_files.min(2),
+            st.small_combined_files.min(3),
+            st.symlinks.min(1),
+            st.directories.min(2)
+        ));
     }
     let diffs = restore_exact(&arch, 0, t, scratch, Cmp::FULL);
     if !diffs.is_empty() {
@@ -355,6 +372,9 @@ pub fn for_each_case(
 pub fn run(report: &Report, budget: &Budget) {
     let f = |c: &Case, t: &Tree, scratch: &Scratch| judge(t, &c.opts, &c.tag, c.sweep, scratch);
     let (done, total) = for_each_case(report, budget, "C01", &f);
+    for o in OUTCOMES.lock().unwrap().iter() {
+        report.outcome(o.clone());
+    }
     report.set("states", json!(done));
     report.set("transitions", json!(done * 2));
     report.set("traces_validated_against_impl", json!(done));
